@@ -126,5 +126,63 @@ func factsAmf0(p *pkgInfo, w *bytes.Buffer) error {
 		fmt.Fprintf(w, "  if %s then .%s else\n", strings.Join(a.vals, " ∨ "), leanName(a.outcome))
 	}
 	fmt.Fprintf(w, "  .%s\n", leanName(def))
+	// K3: does the container decoder advance by what the child consumed (O(1)) or re-walk it with Size()?
+	ub := p.funcDecl("objectBase", "unmarshal")
+	if ub == nil {
+		return fmt.Errorf("func (*objectBase) unmarshal")
+	}
+	usesConsumed, usesSize := false, false
+	ast.Inspect(ub.Body, func(n ast.Node) bool {
+		as, ok := n.(*ast.AssignStmt)
+		if !ok || len(as.Lhs) != 1 || len(as.Rhs) != 1 {
+			return true
+		}
+		if id, ok := as.Lhs[0].(*ast.Ident); !ok || id.Name != "p" {
+			return true
+		}
+		sl, ok := as.Rhs[0].(*ast.SliceExpr)
+		if !ok || sl.Low == nil {
+			return true
+		}
+		if c, ok := sl.Low.(*ast.CallExpr); ok {
+			if se, ok := c.Fun.(*ast.SelectorExpr); ok {
+				switch se.Sel.Name {
+				case "consumed":
+					usesConsumed = true
+				case "Size":
+					// p = p[a.Size():] for a child value `a` (the key advance is u.Size(), a plain string)
+					if id, ok := se.X.(*ast.Ident); ok && id.Name == "a" {
+						usesSize = true
+					}
+				}
+			}
+		}
+		return true
+	})
+	// the fallback to a.Size() must be in the else branch of the `consumer` type assertion
+	guarded := false
+	ast.Inspect(ub.Body, func(n ast.Node) bool {
+		is, ok := n.(*ast.IfStmt)
+		if !ok || is.Init == nil || is.Else == nil {
+			return true
+		}
+		if as, ok := is.Init.(*ast.AssignStmt); ok && len(as.Rhs) == 1 {
+			if ta, ok := as.Rhs[0].(*ast.TypeAssertExpr); ok {
+				if id, ok := ta.Type.(*ast.Ident); ok && id.Name == "consumer" {
+					guarded = true
+				}
+			}
+		}
+		return true
+	})
+	// every container type implements consumed()
+	impl := 0
+	for _, t := range []string{"Object", "EcmaArray", "StrictArray"} {
+		if p.funcDecl(t, "consumed") != nil {
+			impl++
+		}
+	}
+	fmt.Fprintf(w, "/-- `objectBase.unmarshal` advances past a decoded child by `consumed()` (%v) for the %d/3 container types that\nimplement it, falling back to `a.Size()` (%v) only in the else branch of the `consumer` assertion (%v). When false the\ndecoder re-walks every child with `Size()` (quadratic on nested containers, finding K3). -/\ndef childAdvanceIsConstant : Bool := %v\n",
+		usesConsumed, impl, usesSize, guarded, usesConsumed && guarded && impl == 3)
 	return nil
 }
